@@ -192,6 +192,9 @@ func verifyChain(certs []*x509.Certificate, trc *TRC, now time.Time) error {
 	if trc == nil || trc.IsZero() {
 		return serrors.New("TRC required for chain verification")
 	}
+	if err := certs[0].CheckSignatureFrom(certs[1]); err != nil {
+		return serrors.Wrap("AS certificate not issued by CA certificate", err)
+	}
 	intPool := x509.NewCertPool()
 	intPool.AddCert(certs[1])
 	rootPool, err := trc.RootPool()
